@@ -1263,6 +1263,10 @@ class Context:
                     raise NotImplementedError("time range loading not yet supported for superruns")
 
                 sub_run_spec = self.run_metadata(run_id, projection="sub_run_spec")["sub_run_spec"]
+                # define_run orders the subruns by run start, but a frontend may not preserve
+                # the order of the spec (e.g. json with sorted keys): restore it
+                _starts = {r: self.run_metadata(r, projection="start")["start"] for r in sub_run_spec}
+                sub_run_spec = {r: sub_run_spec[r] for r in sorted(sub_run_spec, key=_starts.get)}
 
                 # Make subruns if they do not exist.
                 self.make(
